@@ -55,6 +55,9 @@ class AsyncSubject(Subject[_T]):
             value: The value to remember until completion
         """
         with self.lock:
+            if self.is_stopped:
+                # lost the race against a terminating call on another thread
+                return
             self.value = value
             self.has_value = True
 
